@@ -66,6 +66,7 @@ class Obs:
         self.timeout = False
         self.real_results_left: Any = None
         self.started_after_raise: list = []
+        self.readable_after: list = []
         self.loaded_after: dict = {}
         self.cached_tasks_error = None
 
@@ -221,6 +222,19 @@ def execute_case(spec: dict, *, chooser: Optional[Chooser] = None, gated: bool =
                     obs.cached_tasks_error = f'{type(ex).__name__}: {ex}'[:200]
         for nid, insts in built.instances.items():
             obs.meta[nid] = [t.result_meta for t in insts]
+        if obs.outcome == 'return' and backend_kind != 'controlled':
+            # documented: accessing .result raises TaskError when no result is available in memory
+            from labtech.exceptions import TaskError
+            for nid, insts in built.instances.items():
+                for t in insts:
+                    try:
+                        t.result
+                    except TaskError:
+                        continue
+                    except Exception:
+                        continue
+                    obs.readable_after.append(nid)
+                    break
         return obs
     finally:
         obs.wall = time.monotonic() - t0
